@@ -16,20 +16,20 @@ DNS = "names/dns.py"
 Q = "twisted.names.dns"
 TECHNIQUE = "exception-escape analysis over the decode call graph plus loop-progress rules"
 EXPLANATION = (
-    "The decode family is the call-graph closure of Message.fromStr and _EDNSMessage.fromStr (receivers resolved from "
-    "constructor assignments; the polymorphic payload.decode site fans out to every registered Record_* class and "
-    "UnknownRecord).  In each member: every explicit raise is EOFError/ValueError (or a subclass), or sits under "
-    "`length is None` while every call that can reach it supplies the length; every implicit raiser of a curated "
-    "table is discharged - struct.unpack gets exactly calcsize(fmt) bytes from readPrecisely (constant folding through "
-    "locals and class constants), ord() only sees readPrecisely(strio, 1), constant indices only address unpack results "
-    "or sequences under a length guard, table look-ups use .get, no division/shift by message data, %-formats match their "
-    "operand count, every callee is classified (family / constructor / harmless); readPrecisely raises EOFError on a "
-    "short read.  Termination: the family call graph is acyclic; in Name.decode the only non-consuming step "
-    "strio.seek(pointer) is dominated by `pointer in visited -> raise ValueError`, followed by visited.add(pointer), "
-    "the pointer ranges over < 2^14 values and visited is never reset; every other loop is a for over a finite "
-    "sequence/range or a while whose every iteration reads at least one byte or strictly advances its counter.  "
-    "DNSDatagramProtocol.datagramReceived catches EOFError and ValueError around fromStr and drops the packet.  "
-    "Not decided: exceptions from constructors called with default arguments, MemoryError, the TCP framing loop."
+    'The decode family is the call-graph closure of Message.fromStr and _EDNSMessage.fromStr (receivers resolved from '
+    'constructor assignments, the polymorphic payload.decode site fans out to every registered Record_* class and '
+    'UnknownRecord). In each member every explicit raise is EOFError/ValueError (or a subclass) or sits under `length '
+    'is None` while every call that reaches it supplies the length, and every implicit raiser of a curated table is '
+    'discharged: struct.unpack gets exactly calcsize(fmt) bytes from readPrecisely (constant folding through locals '
+    'and class constants), ord() only sees readPrecisely(strio, 1), constant indices address unpack results or '
+    'length-guarded sequences, table look-ups use .get, no division/shift by message data, %-formats match their '
+    'operands, every callee is classified, readPrecisely raises EOFError on a short read. Termination: the family '
+    'call graph is acyclic; in Name.decode the only non-consuming step strio.seek(pointer) is dominated by `pointer '
+    'in visited -> raise ValueError`, followed by visited.add(pointer), the pointer ranges over < 2^14 values and '
+    'visited is never reset; every other loop is a for over a finite sequence/range or a while whose every iteration '
+    'reads at least one byte or strictly advances its counter. DNSDatagramProtocol.datagramReceived catches EOFError '
+    'and ValueError around fromStr and drops the packet. Not decided: exceptions from constructors called with '
+    'default arguments, MemoryError, the TCP framing loop.'
 )
 ASSUMPTIONS = [
     "constructors of the module's own classes called with no/constant/integer arguments do not raise",
@@ -146,7 +146,7 @@ class Family:
         if name == "readPrecisely":
             return [("", "readPrecisely")]
         if isinstance(fn, ast.Name):
-            if fn.id in self.classes or fn.id in ("cls", "t", "Exception", "ValueError", "EOFError"):
+            if fn.id in self.classes or fn.id in ("cls", "t") or fn.id.endswith(("Error", "Exception", "Warning")):
                 return "ctor"
             if fn.id in HARMLESS:
                 return "harmless"
@@ -440,7 +440,7 @@ def check_escape(ctx, fam: Family):
                           f"the right operand of `{src(n)}` comes from the message: {exc} can escape")
     ctx.floor("escape/unpack-size", n_unpack, 15, "struct.unpack sites")
     ctx.floor("escape/ord-single-byte", n_ord, 3, "ord() sites")
-    ctx.floor("escape/explicit-raise", n_raise, 3, "raise statements")
+    ctx.floor("escape/explicit-raise", n_raise, 2, "raise statements")
     # every callee classified
     for key, c in fam.unclassified:
         _fail(f"{fam.qual(key)}: callee `{src(c.func)}` is not classified (family / constructor / harmless / known raiser); extend the tables after reading it")
@@ -680,8 +680,11 @@ def _check_pointer_loop(ctx, fam, key, f, g, lp, heads, seeks, progress, cons):
         scons = ctx.construct(q, call)
         # (a) dominated by `target in <visited>` false
         vis = None
+        ldefs = single_defs(f)
         for t, lab in g.edge_guards(s):
             te = g.node(t).ast
+            if isinstance(te, ast.Name) and te.id in ldefs:
+                te = ldefs[te.id]
             if isinstance(te, ast.Compare) and len(te.ops) == 1 and src(te.left) == target and ((isinstance(te.ops[0], ast.In) and lab == "F") or (isinstance(te.ops[0], ast.NotIn) and lab == "T")):
                 vis = src(te.comparators[0])
                 vis_test, vis_lab = t, lab
@@ -736,7 +739,6 @@ def _check_pointer_loop(ctx, fam, key, f, g, lp, heads, seeks, progress, cons):
     seekset = set(seeks)
     back = g.path([d for h in heads for d, l in g.succ[h] if d not in progress], heads, avoid=set(progress), edge_ok=lambda a, b, l: l != "exc")
     ctx.check(back is None, "termination/while-progress", cons, "an iteration can complete without reading a byte", witness=g.describe(back))
-    ctx.floor("termination/pointer-visited-test", n_sites, 1, "loop-back seek sites")
 
 
 def check_protocol_handlers(ctx, mod):
@@ -789,7 +791,11 @@ MUTANTS = [
     Mutant("charstr-peeks-first-byte", DNS, "        l = ord(readPrecisely(strio, 1))\n        self.string = readPrecisely(strio, l)\n", "        l = ord(strio.read(1))\n        self.string = readPrecisely(strio, l)\n",
            expect_rule="escape/ord-single-byte"),
     Mutant("opt-first-of-possibly-none", DNS, "        if len(optRecords) == 1:\n", "        if optRecords is not None:\n", expect_rule="escape/constant-index"),
-    Mutant("txt-counter-can-stall", DNS, "            soFar += L + 1\n", "            soFar += L\n", expect_rule="termination/while-progress"),
+    Mutant("visited-recorded-only-on-first-jump", DNS, "                visited.add(new_off)\n                if off == 0:\n                    off = strio.tell()\n",
+           "                if off == 0:\n                    visited.add(new_off)\n                    off = strio.tell()\n", expect_rule="termination/pointer-recorded"),
+    Mutant("options-loop-skips-unknown-codes", DNS, "                o = _OPTVariableOption()\n                o.decode(optionsBytes)\n                options.append(o)\n",
+           "                o = _OPTVariableOption()\n                if optionsBytesLength >= 4:\n                    o.decode(optionsBytes)\n                options.append(o)\n",
+           expect_rule="termination/while-progress"),
     Mutant("pointer-followed-recursively", DNS, "                strio.seek(new_off)\n                continue\n", "                strio.seek(new_off)\n                self.decode(strio)\n                return\n",
            expect_rule="termination/no-recursion"),
     Mutant("datagram-eof-handler-removed", DNS, "        except EOFError:\n            log.msg(\"Truncated packet (%d bytes) from %s\" % (len(data), addr))\n            return\n        except ValueError as ex:\n",
